@@ -5,7 +5,7 @@ from ..world import norm
 from . import c02, c01
 import modelx as mx
 
-WEIGHTS = {"eval": 6, "set_value": 4, "clear": 3, "set_ref": 1.0, "gc": 0.2}
+WEIGHTS = {"eval": 6, "set_value": 4, "clear": 3, "set_ref": 1.0, "del_ref": 0.5, "gc": 0.2}
 
 
 def swarm(rng):
@@ -114,7 +114,7 @@ class C06(PropBase):
                                 {"request": op, "extra": extra[:5], "missing": missing[:5]})
             self.compare_held(op)
             return
-        if k == "set_ref":
+        if k in ("set_ref", "del_ref"):
             # reference change: inputs survive, values stay right; exactness is not promised -> resynchronise
             ins0 = set(ev.inputs)
             out = mach.do(op, record=False)
